@@ -293,6 +293,9 @@ func runProperty(o *options) int {
 		var run []*hstate
 		for _, h := range hs {
 			hcfgs := h.Configs
+			if tier == 0 && len(h.ConfigsQuick) > 0 {
+				hcfgs = h.ConfigsQuick
+			}
 			if len(hcfgs) == 0 {
 				hcfgs = []string{"generic"}
 			}
@@ -480,6 +483,7 @@ func explore(o *options, prog *interp.Program, hs []*hstate, tier int) {
 				if h.H.TimeoutMs > 0 {
 					lim.QueryTimeoutMs = h.H.TimeoutMs
 				}
+				lim.FreshSolver = h.H.FreshSolver || os.Getenv("SYMGO_FRESH") != ""
 				h.mu.Lock()
 				wantSample := len(h.Samples) < sampleK
 				h.mu.Unlock()
